@@ -6,7 +6,13 @@ import OrsoVerif.Generated.KernelFns
 (`Gen.KernelFns`, regenerated from the working tree's `compiled.pyx`), which `Props/C10.lean` proves equal to the
 models of `Model/Kernels.lean`. -/
 namespace Drv.C10
-open Kernels CallSites KernelSem
+open Kernels CallSites KernelSem PyDictM
+
+/-- `[ident, exact, isStr, text, value]`: `ident` a string (the plain string the key equals) or a number (equal to none). -/
+def decodeItem : PyVal → Option (PyKey × PyVal)
+  | .list [.str s, .bool e, .bool i, .str t, v] => some (⟨.text s, e, i, t⟩, v)
+  | .list [.int n, .bool e, .bool i, .str t, v] => if n < 0 then none else some (⟨.other n.toNat, e, i, t⟩, v)
+  | _ => none
 
 def decodeRow : PyVal → Option (RowObj PyVal)
   | .list [.bool t, .list cells] => some ⟨t, cells⟩
@@ -71,9 +77,16 @@ def handle (op : String) (args : List PyVal) : Option (List PyVal) :=
     let cols ← asRefs cols
     let limit ← (match limit with | .none => some none | .int l => some (some l) | _ => none)
     pure (encPub (publicCollect names rows cols single limit))
-  | "rownew", [.list fields, .bool tuplesOnly, .bool exact, .dict d] => do
+  | "rownew", [.list fields, .bool tuplesOnly, .bool exact, .list items] => do
     let fields ← asStrs fields
-    match rowNew .none (createClass fields tuplesOnly) (.dict exact d) with
+    let items ← items.mapM decodeItem
+    match rowNew .none (createClass fields tuplesOnly) (.dict ⟨exact, items⟩) with
+    | some r => pure [.str "some", .list r]
+    | none => pure [.str "none"]
+  | "rowappend", [.list fields, .bool exact, .list items] => do
+    let fields ← asStrs fields
+    let items ← items.mapM decodeItem
+    match rowNew .none (createClass fields false) (.dict (Gen.DictGlue.appendPrepare ⟨exact, items⟩)) with
     | some r => pure [.str "some", .list r]
     | none => pure [.str "none"]
   | "rownew", [.list fields, .bool tuplesOnly, .list t] => do
